@@ -39,6 +39,7 @@ type RunOpts struct {
 	FileObs  bool // token-level observation of every user file of the package (C10)
 	KeepDirs bool
 	Timeout  time.Duration
+	NoScale  bool // do not stretch the limit by the machine load
 	Workers  int
 }
 
@@ -109,13 +110,25 @@ func compress(evs []map[string]interface{}) {
 // timeoutRetries bounds how many timed-out runs are repeated per process (a genuine hang costs the long timeout once more)
 var timeoutRetries int32 = 6
 
+// confirmedHangs counts runs that exceeded the limit also when repeated
+var confirmedHangs int32
+
 // RunOne realises the scenario under root, runs goderive and collects observations. A run that exceeds the
 // time limit is repeated once from a clean directory with a three times longer limit before it is called a
 // hang: on a heavily loaded machine a correct goderive can need more than 20 s, and a verdict must not
 // depend on the load.
 func RunOne(c *core.Ctx, bin string, sc *Scenario, root string, chk *Checker, o RunOpts) (*RunOut, error) {
+	if atomic.LoadInt32(&confirmedHangs) >= 8 && o.Timeout == 0 {
+		// goderive demonstrably hangs on this tree: do not let every further hanging case cost minutes
+		o.Timeout = 10 * time.Second
+		o.NoScale = true
+	}
 	out, err := runOneAttempt(c, bin, sc, root, chk, o)
-	if err != nil || !out.TimedOut || atomic.AddInt32(&timeoutRetries, -1) < 0 {
+	if err != nil || !out.TimedOut {
+		return out, err
+	}
+	if o.NoScale || atomic.AddInt32(&timeoutRetries, -1) < 0 {
+		atomic.AddInt32(&confirmedHangs, 1)
 		return out, err
 	}
 	os.RemoveAll(root)
@@ -127,6 +140,9 @@ func RunOne(c *core.Ctx, bin string, sc *Scenario, root string, chk *Checker, o 
 	out2, err := runOneAttempt(c, bin, sc, root, chk, o2)
 	if err != nil {
 		return nil, err
+	}
+	if out2.TimedOut {
+		atomic.AddInt32(&confirmedHangs, 1)
 	}
 	if !out2.TimedOut {
 		c.Warn(fmt.Sprintf("a goderive run exceeded the time limit and finished when repeated with a longer one (machine load): %s", sc.ID))
@@ -157,7 +173,11 @@ func runOneAttempt(c *core.Ctx, bin string, sc *Scenario, root string, chk *Chec
 	if len(sc.Args) == 0 {
 		args = append(args, ".")
 	}
-	r, err := gd.Run(c, bin, pkgdir, args, trace, o.Timeout)
+	to := o.Timeout
+	if o.NoScale {
+		to = -to // gd.Run: negative = exact
+	}
+	r, err := gd.Run(c, bin, pkgdir, args, trace, to)
 	if err != nil {
 		return nil, err
 	}
